@@ -15,12 +15,17 @@ def histories(ctx, n_hist: int, text_heavy: bool):
         n_ops = ctx.rng.choice([4, 8, 15, 30] if ctx.quick else [8, 15, 30, 60])
         n_tok = ctx.rng.choice([6, 12, 8 * lf, 14 * lf])
         n_tok = min(n_tok, 90)
-        if k % 3 == 2:
+        directed_breaks = False
+        if k % 6 == 5:
+            texts, ops = sd.gen_directed_breaks(ctx.rng, lf)
+            n_tok = len(texts)
+            directed_breaks = True
+        elif k % 3 == 2:
             texts, ops = sd.gen_directed(ctx.rng, lf)
             n_tok = len(texts)
         else:
             texts, ops = sd.gen_history(ctx.rng, lf, n_ops, n_tok)
-        if text_heavy:
+        if text_heavy and not directed_breaks:
             # more text updates, on live tokens, with and without line breaks
             extra = []
             for op in ops:
@@ -110,6 +115,20 @@ def replay(ctx: common.Ctx, path: str, prop_sigs) -> int:
         bad = ctx.run_coq_cases('replay', PREAMBLE, 'scase', 'check_case', [sd.coq_case(lf, texts, steps)])
         print('model/implementation agree' if not bad else 'model/implementation DISAGREE')
         return 1 if (fails or bad) else 0
+    if 'property_steps' in w:
+        from harness import gen_docs
+        sd.set_load_factor(w['lf'])
+        doc = gen_docs.parse_ok(w['text'], auto_claim=w.get('auto_claim', True))
+        rc = 0
+        for k, e1, e2 in w['property_steps']:
+            got = property_step(doc, k, _dec(e1), _dec(e2))
+            if got is not None and got[0] != 'refused':
+                print('monitor:', got[0], got[1])
+                rc = 1
+                break
+        sd.set_load_factor(1000)
+        print('reproduced' if rc else 'not reproduced')
+        return rc
     print(json.dumps(f, indent=1))
     return 1
 
@@ -188,6 +207,166 @@ def setter_tie(ctx: common.Ctx):
     ctx.count('setter_tie_checked')
 
 
+# ---- value-level properties that are specified to update ONE existing token in place ------------------------
+def _walk_models(root):
+    """All models reachable from a File through raw_* attributes, in a deterministic order."""
+    from autobean_refactor.models import base
+    seen, out, todo = set(), [], [root]
+    while todo:
+        m = todo.pop(0)
+        if id(m) in seen or not isinstance(m, base.RawModel):
+            continue
+        seen.add(id(m))
+        out.append(m)
+        for name in sorted(n for n in dir(type(m)) if n.startswith('raw_')):
+            try:
+                v = getattr(m, name)
+            except Exception:
+                continue
+            if isinstance(v, base.RawModel):
+                todo.append(v)
+            elif v is not None and not isinstance(v, (str, bytes)):
+                try:
+                    todo.extend(x for x in v if isinstance(x, base.RawModel))
+                except TypeError:
+                    pass
+    return out
+
+
+def _value_slots(f):
+    """(model, attribute name, descriptor, token) for every value property (required / optional string / indented
+    string / decimal / date) whose slot currently holds a single token."""
+    import inspect
+    from autobean_refactor.models import base
+    from autobean_refactor.models.internal import value_properties as vp
+    kinds = (vp.required_value_property, vp.optional_string_property, vp.optional_indented_string_property,
+             vp.optional_decimal_property, vp.optional_date_property)
+    out = []
+    for m in _walk_models(f):
+        for name in sorted(dir(type(m))):
+            if name.startswith('_'):
+                continue
+            try:
+                d = inspect.getattr_static(type(m), name)
+            except AttributeError:
+                continue
+            if not isinstance(d, kinds):
+                continue
+            try:
+                inner = d._inner_property.__get__(m)
+            except Exception:
+                continue
+            if isinstance(inner, base.RawTokenModel) and inner.token_store is f.token_store:
+                out.append((m, name, d, inner))
+    return out
+
+
+def _enc(v):
+    import datetime
+    import decimal
+    if isinstance(v, decimal.Decimal):
+        return ['dec', str(v)]
+    if isinstance(v, datetime.date):
+        return ['date', v.isoformat()]
+    return ['str', v]
+
+
+def _dec(e):
+    import datetime
+    import decimal
+    return {'dec': decimal.Decimal, 'date': datetime.date.fromisoformat, 'str': str}[e[0]](e[1])
+
+
+def _slot_values(rng, tok):
+    """Two values of the token's domain, boundary ones first ('' where the domain has it, one character, several
+    lines for comments)."""
+    rule = getattr(tok, 'RULE', None)
+    if rule == 'BLOCK_COMMENT':
+        pool = ['', 'x', 'two\nlines', 'a\n\nb']
+    elif rule == 'INLINE_COMMENT':
+        pool = ['', 'c', 'longer comment']
+    elif rule == 'ESCAPED_STRING':
+        pool = ['', 'n', 'two\nlines', 'q"uote']
+    else:
+        got = _new_value(rng, tok)
+        if got is None or got[0] != 'value':
+            return None
+        pool = [got[1], (_new_value(rng, tok) or got)[1]]
+    rng.shuffle(pool)
+    return pool[0], pool[1 % len(pool)]
+
+
+def property_step(f, slot_index: int, v1, v2):
+    """One in-place property assignment and a follow-up through the held token. Returns (signature, message) or None."""
+    from harness import gen_docs
+    slots = _value_slots(f)
+    if slot_index >= len(slots):
+        return None
+    m, name, d, held = slots[slot_index]
+    store = f.token_store
+    toks = list(store)
+    before = [t.raw_text for t in toks]
+    i = next(k for k, t in enumerate(toks) if t is held)
+    indent0 = getattr(held, 'indent', None)
+    label = f'{type(m).__name__}.{name} = {v1!r} (slot token {i}, {held.RULE})'
+    try:
+        setattr(m, name, v1)
+    except (ValueError, TypeError, AssertionError):
+        return ('refused', label)
+    after = list(store)
+    if d._inner_property.__get__(m) is not held or held.token_store is not store:
+        return ('C02:doc-property-token-swapped', f'{label}: the token object at that slot was replaced instead of updated')
+    if len(after) != len(toks) or any(a is not b for a, b in zip(after, toks)):
+        return ('C02:doc-identity', f'{label}: token identity/order changed')
+    now = [t.raw_text for t in after]
+    if now[:i] != before[:i] or now[i + 1:] != before[i + 1:]:
+        return ('C02:doc-other-text', f'{label}: another token changed')
+    if gen_docs.print_model(f) != ''.join(before[:i]) + held.raw_text + ''.join(before[i + 1:]):
+        return ('C02:doc-print', f'{label}: printed text is not the old text with that token span replaced')
+    if indent0 is not None and held.indent != indent0:
+        return ('C02:doc-comment-reindented', f'{label}: the comment was re-indented from {indent0!r} to {held.indent!r}')
+    if getattr(m, name) != v1:
+        return ('C02:doc-property-readback', f'{label}: reads back {getattr(m, name)!r}')
+    # a reference to the token taken before the assignment still writes through to the document
+    try:
+        held.value = v2
+    except (ValueError, TypeError, AssertionError):
+        return None
+    if gen_docs.print_model(f) != ''.join(before[:i]) + held.raw_text + ''.join(before[i + 1:]) or getattr(m, name) != v2:
+        return ('C02:doc-held-token-dead', f'{label}: a later assignment {v2!r} through the held token does not reach the document')
+    return None
+
+
+def run_property_steps(ctx, f, text, lf, auto_claim, prop_sigs) -> bool:
+    """A few in-place property assignments on a freshly parsed document. False when a failure was recorded."""
+    steps = []
+    n = len(_value_slots(f))
+    if not n:
+        return True
+    order = list(range(n))
+    ctx.rng.shuffle(order)
+    # comment slots first: their boundary value '' is the fragile one
+    slots = _value_slots(f)
+    order.sort(key=lambda k: 0 if slots[k][3].RULE in ('BLOCK_COMMENT', 'INLINE_COMMENT') else 1)
+    for k in order[:ctx.rng.choice([2, 4, 6])]:
+        tok = _value_slots(f)[k][3] if k < len(_value_slots(f)) else None
+        vals = _slot_values(ctx.rng, tok) if tok is not None else None
+        if vals is None:
+            continue
+        steps.append([k, _enc(vals[0]), _enc(vals[1])])
+        got = property_step(f, k, vals[0], vals[1])
+        if got is None:
+            ctx.count('property_assignments')
+            continue
+        if got[0] == 'refused':
+            ctx.count('assignment_refused')
+            continue
+        if got[0].split(':')[0] in prop_sigs:
+            ctx.monitor_failure(got[0], got[1], {'lf': lf, 'text': text, 'auto_claim': auto_claim, 'property_steps': steps})
+            return False
+    return True
+
+
 def run_documents(ctx: common.Ctx, prop_sigs, n_quick: int = 25, n_thorough: int = 250):
     from harness import gen_docs
     setter_tie(ctx)
@@ -196,10 +375,14 @@ def run_documents(ctx: common.Ctx, prop_sigs, n_quick: int = 25, n_thorough: int
         lf = ctx.rng.choice([3, 8, 1000])
         sd.set_load_factor(lf)
         text = gen_docs.ledger(ctx.rng)
-        f = gen_docs.parse_ok(text, auto_claim=ctx.rng.random() < 0.7)
+        auto_claim = ctx.rng.random() < 0.7
+        f = gen_docs.parse_ok(text, auto_claim=auto_claim)
         if f is None:
             ctx.count('rejected_documents')
             continue
+        if 'C02' in prop_sigs and not run_property_steps(ctx, f, text, lf, auto_claim, prop_sigs):
+            continue
+        f = gen_docs.parse_ok(text, auto_claim=auto_claim)     # token-level assignments start from the parsed text again
         store = f.token_store
         n_assign = 0
         hist = []
